@@ -1,7 +1,7 @@
 (* C17 property theorems (proofs in C04/Errors.v over the same transition system). *)
 From Coq Require Import List Bool Arith.
 Import ListNotations.
-From Miller Require Import C04.Model C04.Search C04.Progress C04.Errors.
+From Miller Require Import C04.Model C04.Search C04.Progress C04.Errors C04.Termination.
 
 (* A failure of the reader (open/parse error), of any verb (Transform error) or of the writer (Write error),
    at any position in the stream, is never lost: whenever main exits, it returns an error.  For every chain
@@ -28,6 +28,13 @@ Theorem C17_terminates_under_faults :
     kinds <> [] -> reachable false (init k kinds) s -> is_final s = false -> exists s', step false s s'.
 Proof. exact no_deadlock. Qed.
 Print Assumptions C17_terminates_under_faults.
+
+(* ... and every run, failing or not, ends with main exited: the transition system contains all failure steps *)
+Theorem C17_every_faulty_run_terminates :
+  forall (k : nat) (kinds : list bool), kinds <> [] ->
+  forall s, reachable false (init k kinds) s -> exists s', reachable false s s' /\ is_final s' = true.
+Proof. exact every_run_reaches_final. Qed.
+Print Assumptions C17_every_faulty_run_terminates.
 
 (* non-vacuity: a run in which a verb fails exists and ends with an error status *)
 Example C17_nonvacuous :
